@@ -12,7 +12,7 @@ pub struct Node {
     pub name: String,
     /// operator kind for coverage counters, e.g. `fold'static`
     pub kind: String,
-    /// operator expression text, e.g. `map(|x: It| dx_shape::rt::mapf(3, x))`
+    /// operator expression text, e.g. `map(|x: It| dxs_rt::mapf(3, x))`
     pub text: String,
     /// inputs: (index of producing node, port label on *this* node)
     pub ins: Vec<(usize, Option<String>)>,
@@ -165,8 +165,8 @@ impl Prog {
     /// The Rust function wrapping this program.
     pub fn emit_fn(&self, fn_name: &str, dfir_text: &str) -> String {
         let mut s = String::new();
-        s.push_str(&format!("#[allow(unused_variables, unused_mut, clippy::all)]\npub fn {fn_name}(h: &dx_shape::rt::History, rec: &dx_shape::rt::Rec) {{\n"));
-        s.push_str("    use dx_shape::rt::It;\n");
+        s.push_str(&format!("#[allow(unused_variables, unused_mut, clippy::all)]\npub fn {fn_name}(h: &dxs_rt::History, rec: &dxs_rt::Rec) {{\n"));
+        s.push_str("    use dxs_rt::It;\n");
         s.push_str("    let mut txs = Vec::new();\n");
         for i in 0..self.n_src {
             s.push_str(&format!("    let (tx{i}, rx{i}) = dfir_rs::util::unbounded_channel::<It>();\n    txs.push(tx{i});\n"));
@@ -177,7 +177,7 @@ impl Prog {
         s.push_str("    let mut df = dfir_rs::dfir_syntax! {\n");
         s.push_str(dfir_text);
         s.push_str("    };\n");
-        s.push_str("    dx_shape::rt::drive(&mut df, &txs, h, rec);\n}\n");
+        s.push_str("    dxs_rt::drive(&mut df, &txs, h, rec);\n}\n");
         s
     }
 }
